@@ -54,11 +54,6 @@ package syslutil
 //@   fresh
 //@   ensures sep != "" ==> len(result) >= 1 && result[0] == ite(contains(s, sep), substr(s, 0, indexOf(s, sep)), s)
 
-//@ func errors.New
-//@   trusted
-//@   noeffect
-//@   ensures result != nil
-
 //@ func NewChrootFs
 //@   ensures [root-abs] result != nil && isAbs(result.root) && result.fs == fs
 
